@@ -107,8 +107,31 @@ def process_unit(u, pid, scratch, tier, keep_dir=None):
         r['status'] = 'undecided'
         r['reason'] = 'verus produced no JSON result (rc=%s): %s' % (vr['rc'], vr['raw_err'][:400])
         return r
-    fidx = V.fn_index(text)
-    item_by_fn = {i['verus_fn']: i for i in info['items']}
+    fidxq = V.fn_index_q(text)
+    # a short name declared more than once outside the prelude (MemfsFile::write and the free fn write) is replaced by its qualified
+    # name everywhere below, so that a failure is charged to the right item
+    cnt = {}
+    for (ln, nm, q) in fidxq:
+        if smap[ln - 1].get('kind') != 'prelude':
+            cnt[nm] = cnt.get(nm, 0) + 1
+    amb = {nm for nm, c in cnt.items() if c > 1}
+    key_of_line = {ln: (q if nm in amb else nm) for (ln, nm, q) in fidxq}
+    fidx = [(ln, key_of_line[ln]) for (ln, nm, q) in fidxq]
+    quals = {q for (ln, nm, q) in fidxq if nm in amb}
+    item_by_fn = {}
+    for (ln, nm, q) in fidxq:
+        iid = smap[ln - 1].get('item')
+        if iid:
+            for i in info['items']:
+                if i['id'] == iid and i['verus_fn'] == nm:
+                    item_by_fn[key_of_line[ln]] = i
+    for i in info['items']:
+        item_by_fn.setdefault(i['verus_fn'], i)
+
+    def key_of_fn(full):
+        parts = full.split('::')
+        q = '::'.join(parts[-2:]) if len(parts) >= 2 else parts[-1]
+        return q if q in quals else parts[-1]
     # per item: the properties named by at least one clause tag of its contract/body.  A property listed on the item but on none
     # of its clauses depends on the WHOLE contract (it is used through a restated/assumed contract elsewhere): any failed clause counts.
     tagged = {}
@@ -137,7 +160,7 @@ def process_unit(u, pid, scratch, tier, keep_dir=None):
             continue
         dg['_class'] = cls
         # attribute to the failed function: prefer spans inside functions that failed in the breakdown
-        failed = {f['function'].split('::')[-1] for f in vr['functions'] if not f['success']}
+        failed = {key_of_fn(f['function']) for f in vr['functions'] if not f['success']}
         cand = [f for f, _ in fns if f in failed] or [f for f, _ in fns]
         tgt = cand[0] if cand else None
         # clause: any span on a line carrying a clause tag
@@ -175,7 +198,7 @@ def process_unit(u, pid, scratch, tier, keep_dir=None):
         if smap[ln - 1].get('kind') != 'prelude':
             nonprelude.add(nm)
     for f in vr['functions']:
-        short = f['function'].split('::')[-1]
+        short = key_of_fn(f['function'])
         if short not in nonprelude and short not in u.obligations:
             if not f['success']:
                 r['undecided'].append('prelude function %s does not verify (machinery error)' % short)
@@ -183,16 +206,17 @@ def process_unit(u, pid, scratch, tier, keep_dir=None):
         ob = {'name': '%s::%s' % (u.name, short), 'fn': short, 'success': f['success'], 'ms': f['ms'], 'rlimit': f['rlimit'],
               'backend': 'verus/z3'}
         diags = per_fn_diags.get(short, [])
-        if short in vac_fns:
-            it = vac_fns[short]
+        vshort = short.split('::')[-1]
+        if vshort in vac_fns:
+            it = vac_fns[vshort]
             ob['kind'] = 'vacuity'
             ob['props'] = it['props']
             r['vacuity'].append({'item': it['id'], 'rejected': not f['success']})
             if f['success']:
                 r['undecided'].append('VACUOUS: preconditions of %s::%s are contradictory' % (u.name, it['id']))
             continue
-        if short in reach_fns:
-            it = reach_fns[short]
+        if vshort in reach_fns:
+            it = reach_fns[vshort]
             r['reach'].append({'item': it['id'], 'rejected': not f['success']})
             if f['success']:
                 r['undecided'].append('VACUOUS: no exit of %s::%s is reachable under its assumptions' % (u.name, it['id']))
@@ -226,7 +250,7 @@ def process_unit(u, pid, scratch, tier, keep_dir=None):
     # failed functions that never appear in the breakdown but have diagnostics (defensive)
     seen = {o['fn'] for o in r['obligations']}
     for fn, diags in per_fn_diags.items():
-        if fn and fn not in seen and fn not in vac_fns and fn not in reach_fns:
+        if fn and fn not in seen and fn.split('::')[-1] not in vac_fns and fn.split('::')[-1] not in reach_fns:
             it = item_by_fn.get(fn)
             ver = [d for d in diags if d.get('_class') == 'verification']
             if ver:
